@@ -1561,15 +1561,18 @@ def check_C14(tier: str, seed: int) -> int:
                 direct_fail.append({"what": "panic / lost worker under a reader schedule in the dev build", "case": lines[i], "comments": bd[1][:3] if bd else None})
             elif ib[i] is not None and bd[0] != ib[i][0]:
                 direct_fail.append({"what": "dev and release builds disagree under a reader schedule", "case": lines[i], "dev": bd[0][:3], "release": ib[i][0][:3]})
-        # a file of more than 64 KiB delivered one byte at a time, with and without an Interrupted result before every read
+        # a file of more than a megabyte delivered one byte at a time and in blocks, with and without an Interrupted result before every read
         # (more than 65536 transient interruptions in one load): implementation only, against its own plain read
-        bigs = ase.Sprite(width=160, height=160, frames=[ase.Frame(chunks=[
+        # (520 x 520 stored RGBA: a chunk payload of more than a megabyte, followed by one more chunk)
+        bigs = ase.Sprite(width=520, height=520, frames=[ase.Frame(chunks=[
             ase.LayerChunk(flags=1, blend=0, opacity=255, name="big"),
-            ase.CelChunk(layer=0, w=160, h=160, opacity=255, ctype_cel=0,
-                         pixels=ase.rgba_bytes([((x * 7) & 255, (x >> 8) & 255, (x * 13) & 255, 255) for x in range(160 * 160)]))])])
+            ase.CelChunk(layer=0, w=520, h=520, opacity=255, ctype_cel=0,
+                         pixels=bytes(((x * 7 + (x >> 9)) & 255) for x in range(520 * 520 * 4))),
+            ase.UserDataChunk(text="after the big one")])])
         bigp = w.put(ase.serialize(bigs))
         biglines = ["%s plain" % bigp, "%s one" % bigp, "%s intr %d 1" % (bigp, rng.randrange(1, 2 ** 32)), "%s chunks %d 1" % (bigp, rng.randrange(1, 2 ** 32)),
-                    "%s intr %d 3" % (bigp, rng.randrange(1, 2 ** 32))]
+                    "%s intr %d 3" % (bigp, rng.randrange(1, 2 ** 32)), "%s intr %d 4096" % (bigp, rng.randrange(1, 2 ** 32)),
+                    "%s intr %d 70000" % (bigp, rng.randrange(1, 2 ** 32)), "%s bufreader 8192" % bigp, "%s file" % bigp]
         bb = run_sched([vplib.impl_driver("release"), "sched"], biglines, w.dir, "bsched", False)
         for ln, b in zip(biglines[1:], bb[1:]):
             if b is None or bb[0] is None or outcome(bb[0]) != 0 or b[0] != bb[0][0]:
@@ -2532,13 +2535,14 @@ def c10_program(seq: List[str], uds: List[dict], splits: Tuple[int, ...] = ()):
             n = int(e[4:])
             have_tags = True
             ntags = n
-            chunks0.append(ase.TagsChunk(tags=[ase.Tag(name="T%d" % i, color=((0x01C86432 * (i + n)) & 0xFFFFFFFF) if (i + n) % 3 else 0, reserved=bytes([(i * 37 + 5) & 255] * 6) if i % 2 else b"\0" * 6, repeat=3 * (i % 2)) for i in range(n)]))
+            chunks0.append(ase.TagsChunk(tags=[ase.Tag(name="T%d" % i, from_=3 * (n - i), to=3 * (n - i) + 1, color=((0x01C86432 * (i + n)) & 0xFFFFFFFF) if (i + n) % 3 else 0, reserved=bytes([(i * 37 + 5) & 255] * 6) if i % 2 else b"\0" * 6, repeat=3 * (i % 2)) for i in range(n)]))
             ctx = ("tag", 0, n)
         elif e == "oldpal":
             chunks0.append(ase.OldPaletteChunk(packets=[(0, [(1, 2, 3)])]))
             ctx = ("sprite",)
         elif e == "palette":
-            chunks0.append(ase.PaletteChunk(entries=[(9, 8, 7, 255)]))
+            # one colour, or (every second time) more than 256 of them
+            chunks0.append(ase.PaletteChunk(entries=[(9, 8, 7, 255)] * (300 if len(chunks0) % 2 else 1)))
         elif e == "ignorable":
             chunks0.append(ase.RawChunk(ase.CT_CEL_EXTRA, b"\0" * 20))
         elif e == "ud":
@@ -2862,6 +2866,22 @@ def c15_switches(sp: ase.Sprite, rng: random.Random) -> List[Tuple[str, ase.Spri
                 variant("tileset %d without embedded pixels" % ch.id, lambda c, fi=fi, ci=ci: setattr(c.frames[fi].chunks[ci], "flags", (c.frames[fi].chunks[ci].flags & ~2)))
                 variant("tileset %d only linked to an external file" % ch.id,
                         lambda c, fi=fi, ci=ci: (setattr(c.frames[fi].chunks[ci], "flags", (c.frames[fi].chunks[ci].flags & ~2) | 1), setattr(c.frames[fi].chunks[ci], "ext", (1, 1))))
+            if isinstance(ch, ase.TilesetChunk):
+                # the id DEFINED AGAIN later - right behind it and at the end of the last frame - by a chunk that only links to an
+                # external file: the later definition replaces the earlier one, so the sprite has a tileset without pixels
+                def redefine(c, fi=fi, ci=ci, where="behind"):
+                    import copy as _c
+                    d = _c.deepcopy(c.frames[fi].chunks[ci])
+                    d.flags, d.ext, d.pixels, d.zraw = (d.flags & ~2) | 1, (1, 1), b"", None
+                    if where == "behind":
+                        c.frames[fi].chunks.insert(ci + 1, d)
+                    else:
+                        c.frames[-1].chunks.append(d)
+                variant("tileset %d defined again without pixels right behind its chunk" % ch.id, redefine)
+                variant("tileset %d defined again without pixels at the end of the last frame" % ch.id, lambda c, f=redefine: f(c, where="end"))
+        # a tags chunk with an unknown animation direction in this frame (tags chunks outside frame 0 are decoded, then ignored)
+        variant("animation direction 5 in a tags chunk at the end of frame %d" % fi,
+                lambda c, fi=fi: c.frames[fi].chunks.append(ase.TagsChunk(tags=[ase.Tag(name="late", direction=5)])))
         # colour profile chunks at every gap of the frame
         for pos in sorted(set([0, len(fr.chunks) // 2, len(fr.chunks)])):
             variant("ICC profile at frame %d position %d" % (fi, pos),
